@@ -12,6 +12,5 @@ for p in "$@"; do
   echo "MUTATION $name $p rc=$rc $(echo "$out" | grep -c '^VIOLATION') violations: $(echo "$out" | grep 'signature:' | head -3 | tr '\n' ' ')"
 done
 git -C /repo worktree remove --force $wt
-git -C /repo checkout -q -- . 2>/dev/null
 cd /verif && git checkout -q -- evidence 2>/dev/null
 exit 0
